@@ -113,6 +113,15 @@ func Gen(r *rand.Rand, drivers []evt.Driver, pf Profile) *Program {
 	for i := 0; i < n; i++ {
 		p.Ops = append(p.Ops, g.op(0, true))
 	}
+	if pf.Panics && !c.PanicHandler && !c.PHNil && r.IntN(2) == 0 {
+		// the panic handler is installed later: at a top-level point, or by a handler during a delivery
+		at := r.IntN(len(p.Ops))
+		if sub := p.Ops[at]; sub.K == Sub && !sub.Reg.Async && r.IntN(2) == 0 {
+			sub.Reg.Script = append([][]Op{{{K: SetPH}}}, sub.Reg.Script...)
+		} else {
+			p.Ops = append(p.Ops[:at], append([]Op{{K: SetPH}}, p.Ops[at:]...)...)
+		}
+	}
 	return p
 }
 
